@@ -170,7 +170,7 @@ def diffstat_lines(rng, paths):
 
 # ---------------------------------------------------------------- combined diffs / merge conflicts
 
-def gen_combined(rng, conflict=False, nparents=2, nhunks=1):
+def gen_combined(rng, conflict=False, nparents=2, nhunks=1, nconflicts=1, styles=('diff3',), lead=None):
     """A 'diff --cc' section.  Returns (lines, model) where model is a list of
     ('line', prefix, text) / ('conflict', ours_lines, ancestral_lines, theirs_lines)."""
     path = gen.rand_path(rng, simple=True)
@@ -195,6 +195,8 @@ def gen_combined(rng, conflict=False, nparents=2, nhunks=1):
             model.append(('line', p, t))
         earlier += [hh(len(hb), 10 * (hk + 1))] + hb
     n = rng.randint(2, 8)
+    if lead is not None:
+        n = lead        # (0: a conflict region starts on the first line of the hunk)
     for _ in range(n):
         p = rng.choice(prefixes)
         t = gen.rand_text(rng, 40, allow_empty=False, tabs_ok=False)
@@ -209,23 +211,27 @@ def gen_combined(rng, conflict=False, nparents=2, nhunks=1):
                 t = gen.rand_text(rng, 30, allow_empty=False, tabs_ok=False)
                 if not t.startswith(('=======', '<<<<<<<', '>>>>>>>', '|||||||')):
                     return t
-        ours = [side_text() for _ in range(rng.randint(1, 3))]
-        anc = [side_text() for _ in range(rng.randint(1, 3))]
-        theirs = [side_text() for _ in range(rng.randint(1, 3))]
-        body.append('++<<<<<<< HEAD')
-        body += [' +' + t for t in ours]
-        body.append('++||||||| merged common ancestors')
-        body += ['++' + t for t in anc]
-        body.append('++=======')
-        body += ['+ ' + t for t in theirs]
-        body.append('++>>>>>>> branch')
-        model.append(('conflict', ours, anc, theirs))
-        for _ in range(rng.randint(0, 2)):
-            t = gen.rand_text(rng, 40, allow_empty=False, tabs_ok=False)
-            while t.startswith(('=======', '<<<<<<<', '>>>>>>>', '|||||||')):
+        for _region in range(max(1, nconflicts)):
+            ours = [side_text() for _ in range(rng.randint(1, 3))]
+            anc = [side_text() for _ in range(rng.randint(1, 3))]
+            theirs = [side_text() for _ in range(rng.randint(1, 3))]
+            body.append('++<<<<<<< HEAD')
+            body += [' +' + t for t in ours]
+            if len(styles) > 1 and rng.choice(styles) == 'merge':
+                anc = []       # conflict style 'merge': no section for the common ancestor
+            else:
+                body.append('++||||||| merged common ancestors')
+                body += ['++' + t for t in anc]
+            body.append('++=======')
+            body += ['+ ' + t for t in theirs]
+            body.append('++>>>>>>> branch')
+            model.append(('conflict', ours, anc, theirs))
+            for _ in range(rng.randint(0, 2)):
                 t = gen.rand_text(rng, 40, allow_empty=False, tabs_ok=False)
-            body.append('  ' + t)
-            model.append(('line', '  ', t))
+                while t.startswith(('=======', '<<<<<<<', '>>>>>>>', '|||||||')):
+                    t = gen.rand_text(rng, 40, allow_empty=False, tabs_ok=False)
+                body.append('  ' + t)
+                model.append(('line', '  ', t))
     return head + earlier + [hh(len(body), 10 * nhunks)] + body, model, path
 
 
